@@ -60,7 +60,7 @@ package reorgdetector
 //@   modifies nothing
 //@   ensures result1 != nil ==> result0 == nil
 //@   ensures result1 == nil ==> result0 != nil && result0 == chainHdrAt(bigval(number))
-//@ func (rd *ReorgDetector) detectReorgInTrackedList$1 ()
+//@ func (rd *ReorgDetector) detectReorgInTrackedList$1 ( | hdrs, headersCacheLock, headersCache, rd, ctx, lastFinalisedBlock, id, startTime)
 //@   props C06
 //@   requires rd != nil && rd.client != nil && rd.log != nil && hdrs != nil && lastFinalisedBlock != nil && lastFinalisedBlock.Number != nil && 0 <= bigval(lastFinalisedBlock.Number) && bigval(lastFinalisedBlock.Number) < 18446744073709551616
 //@   requires notifyCalls == 0 && headersCache != nil
